@@ -211,6 +211,35 @@ def copy_helpers_state(tree, outer, deco, roots):
     return [f.name for f in reach if f not in roots], why
 
 
+def deepcopy_is_bare(tree, fns) -> bool:
+    """is every `deepcopy(...)` call of the copy methods the bare `copy.deepcopy`: the module imports the name from `copy` (and binds it
+    nowhere else: no def / class / assignment / parameter / other import of that name, no `global` / `nonlocal`), and no copy method
+    contains a `try` or a `with` (which could swallow what the call raises)?"""
+    imported = [n for n in tree.body if isinstance(n, ast.ImportFrom) and n.module == 'copy' and n.level == 0
+                and any(a.name == 'deepcopy' and a.asname is None for a in n.names)]
+    if len(imported) != 1:
+        return False
+    for n in ast.walk(tree):
+        if n is imported[0]:
+            continue
+        if isinstance(n, (ast.FunctionDef, ast.AsyncFunctionDef, ast.ClassDef)) and n.name == 'deepcopy':
+            return False
+        if isinstance(n, ast.Name) and n.id == 'deepcopy' and isinstance(n.ctx, (ast.Store, ast.Del)):
+            return False
+        if isinstance(n, ast.arg) and n.arg == 'deepcopy':
+            return False
+        if isinstance(n, (ast.Import, ast.ImportFrom)) and any((a.asname or a.name.split('.')[0]) == 'deepcopy' for a in n.names):
+            return False
+        if isinstance(n, (ast.Global, ast.Nonlocal)) and 'deepcopy' in n.names:
+            return False
+        if isinstance(n, ast.ExceptHandler) and n.name == 'deepcopy':
+            return False
+    for fn in fns:
+        if any(isinstance(n, (ast.Try, ast.With, ast.AsyncWith)) or type(n).__name__ == 'TryStar' for n in ast.walk(fn)):
+            return False
+    return True
+
+
 def copy_body(fn) -> str:
     """CopyBody term for copy_with / deep_copy_with"""
     a = fn.args
@@ -230,6 +259,15 @@ def copy_body(fn) -> str:
             return '.replace true'
         raise Skip(f'{fn.name}: replace() on `{ast.unparse(x)}`')
     # shape 2: current_values = {field.name: V for field in fields(self) [if field.init]}; return CLS(**{**A, **B})
+    # (the same with the merged dict bound to a name first: `merged = {**A, **B}; return CLS(**merged)`, that name used nowhere else)
+    if len(body) == 3 and isinstance(body[1], ast.Assign) and len(body[1].targets) == 1 and isinstance(body[1].targets[0], ast.Name) \
+            and isinstance(body[1].value, ast.Dict) and isinstance(body[2], ast.Return) and isinstance(body[2].value, ast.Call) \
+            and len(body[2].value.keywords) == 1 and body[2].value.keywords[0].arg is None \
+            and is_name(body[2].value.keywords[0].value, body[1].targets[0].id) \
+            and sum(1 for n in ast.walk(fn) if isinstance(n, ast.Name) and n.id == body[1].targets[0].id) == 2:
+        ret = ast.Return(value=ast.Call(func=body[2].value.func, args=body[2].value.args,
+                                        keywords=[ast.keyword(arg=None, value=body[1].value)]))
+        body = [body[0], ret]
     if len(body) == 2 and isinstance(body[0], ast.Assign) and isinstance(body[1], ast.Return):
         asg, ret = body
         if not (len(asg.targets) == 1 and isinstance(asg.targets[0], ast.Name) and isinstance(asg.value, ast.DictComp)):
@@ -277,7 +315,8 @@ def copy_body(fn) -> str:
 
 
 def gen_frozen(repo):
-    tree = ast.parse(src(repo, REL))
+    from gen.frozen_ir import canonical_trees
+    tree = canonical_trees(repo)[0]          # locals renamed to the names looked for below (by role): a pure renaming changes nothing
     outer = find_func(tree, 'frozen_dataclass')
     pnames = [a.arg for a in outer.args.args]
     if pnames != ['cls'] + PARAMS or outer.args.kwonlyargs or outer.args.vararg or outer.args.kwarg:
@@ -324,6 +363,7 @@ def gen_frozen(repo):
         raise Skip(str(e) + (f'; reachable helpers {helpers}' if helpers else '')
                    + (f'; state kept between calls: {"; ".join(stateful)}' if stateful else ''))
     wr = writes_self(fns['copy_with']) or writes_self(fns['deep_copy_with'])
+    bare = deepcopy_is_bare(tree, [fns['copy_with'], fns['deep_copy_with']])
     # methods_to_add = [...]; for method in methods_to_add: setattr(new_class, method.__name__, method)
     added = []
     for s in deco.body:
@@ -411,6 +451,10 @@ def copyHelpers : List String := [{', '.join('"' + m + '"' for m in helpers)}]
     no `global` / `nonlocal`, no read of a module-level / closure-level name bound to a mutable value, no store into an attribute or
     item of anything but its own locals — so what a copy method returns depends on the receiver, the keyword arguments and nothing else -/
 def copyHelpersStateless : Bool := {lean_bool(not stateful)}
+/-- every `deepcopy(...)` in a copy method is the bare `copy.deepcopy`: the module imports the name from `copy` and binds it nowhere else, and
+    no copy method contains a `try` / `with` — so whatever `copy.deepcopy` raises for a value it cannot duplicate (TypeError for a lock, a
+    generator, …) reaches the caller of `deep_copy_with`, and no instance is returned -/
+def deepcopyBare : Bool := {lean_bool(bare)}
 
 /-- `new_post_init` calls the previous `__post_init__`, and does so before `validate_types` -/
 def postInitCallsOld : Bool := {lean_bool(calls_old)}
